@@ -46,18 +46,45 @@ func utf16Units(s string) int {
 func init() {
 	modules["markup"] = func(c tr.M, rng *rand.Rand) tr.M {
 		in := tr.Map(c["in"])
-		var sb strings.Builder
-		for _, t := range tr.List(in["tokens"]) {
-			sb.WriteString(tokenBytes(tr.Str(t)))
+		text := func(k string) string {
+			var sb strings.Builder
+			for _, t := range tr.List(in[k]) {
+				sb.WriteString(tokenBytes(tr.Str(t)))
+			}
+			return sb.String()
 		}
-		b := &entity.Builder{}
 		resolver := func(id int64) (tg.InputUserClass, error) { return &tg.InputUser{UserID: id, AccessHash: 1}, nil }
-		var err error
-		if tr.Str(in["kind"]) == "html" {
-			err = html.HTML(strings.NewReader(sb.String()), b, html.Options{UserResolver: resolver})
-		} else {
-			err = markdown.Markdown(strings.NewReader(sb.String()), b, markdown.Options{UserResolver: resolver})
+		parse := func(src string) (*entity.Builder, error) {
+			b := &entity.Builder{}
+			if tr.Str(in["kind"]) == "html" {
+				return b, html.HTML(strings.NewReader(src), b, html.Options{UserResolver: resolver})
+			}
+			return b, markdown.Markdown(strings.NewReader(src), b, markdown.Options{UserResolver: resolver})
 		}
+		if in["first"] != nil {
+			// an earlier parse in the same process must not influence this one: the pair runs repeatedly (whatever the
+			// parsers keep between calls may or may not be reused) and the first offending result of the second parse counts
+			first, second := text("first"), text("tokens")
+			for k := 0; k < 40; k++ {
+				_, _ = parse(first)
+				b, err := parse(second)
+				if err != nil {
+					continue
+				}
+				msg, ents := b.Complete()
+				units := utf16Units(msg)
+				for _, e := range ents {
+					if e.GetOffset() < 0 || e.GetLength() < 0 || e.GetOffset()+e.GetLength() > units {
+						out := make([]any, 0, len(ents))
+						for _, e := range ents {
+							out = append(out, tr.M{"off": e.GetOffset(), "len": e.GetLength()})
+						}
+						return tr.M{"err": false, "entities": out, "units": units, "round": k}
+					}
+				}
+			}
+		}
+		b, err := parse(text("tokens"))
 		if err != nil {
 			return tr.M{"err": true, "entities": []any{}, "units": 0}
 		}
